@@ -248,6 +248,16 @@ def parser_rule(prog, res, dec, rule="D-par"):
         elif c and c.startswith("message_frame::MessageFrame::") and c.rsplit("::", 1)[1] not in ("data", "message_number"):
             res.ob(rule, "frame-access | from_message_frame reads MessageFrame::%s" % c.rsplit("::", 1)[1], False,
                    "only data() and message_number() may be read by the decoder", {"file": f.loc["file"], "line": t["line"]})
+    if n_new != 1 and not dec.get("sem") and dec["arms"]:
+        # the constructor is not called exactly once in the body (one call per arm, a helper, a closure): ask T-sem, which counts the parsers
+        # built on every evaluated run
+        try:
+            import dispsem
+            sem_ = dispsem.check(prog, MSG + "::from_message_frame", set(dec["arms"]))
+            if not sem_["problems"]:
+                dec = dict(dec, sem=True)
+        except Exception:
+            pass
     if dec.get("sem") and n_new != 1:
         # T-sem ran the function per (number, outcome) and found, on every run with an arm, exactly one Parser built from data() at bit 12 and handed
         # to the one decoder called (dispsem.check: parser_ok, parsers == 1); the constructor call sits in a closure or helper the template does not see
